@@ -189,8 +189,8 @@ pub fn def() -> PropDef {
         rule: "cancel_world: case index selects socket type (idx mod 6) and fault mix; the application wraps up to 24 recv calls in 'poll k times then drop' with k in 0..5 drawn per call while messages arrive under random segmentation, so cancellation points fall at arbitrary byte-arrival positions; req_abandon: 1..3 rounds of send / abandoned recv (k in 0..4) / out-of-turn send / owed recv against a scripted REP with random reply delay; non-trivial = at least one recv future was actually dropped while pending; distinct = distinct (plan, schedule, transport) hashes",
         assumptions: &["the cancellation fault is 'drop the recv future after k polls', which is what select!, timeouts and proxy() do", "enumeration is over socket type x poll budget 0..5; byte-arrival positions are sampled by the transport knobs, not enumerated"],
         strata: vec![
-            Stratum { name: "cancel_world", quick: 120_000, thorough: 2_000_000, exhaustive: (false, false), run: cancel_world, what: "PULL/SUB/DEALER/ROUTER/REP/XPUB with abandoned recvs; C05 oracle" },
-            Stratum { name: "req_abandon", quick: 60_000, thorough: 1_000_000, exhaustive: (false, false), run: req_abandon, what: "REQ protocol state after an abandoned recv" },
+            Stratum { name: "cancel_world", quick: 120_000, thorough: (2_000_000) * 3, exhaustive: (false, false), run: cancel_world, what: "PULL/SUB/DEALER/ROUTER/REP/XPUB with abandoned recvs; C05 oracle" },
+            Stratum { name: "req_abandon", quick: 60_000, thorough: (1_000_000) * 3, exhaustive: (false, false), run: req_abandon, what: "REQ protocol state after an abandoned recv" },
         ],
     }
 }
